@@ -40,8 +40,8 @@ def run(ctx):
             diverged += 1
     ctx.samples.append(dict(schedule=srvlib.sched_of(beh[0]), reqs=beh[0]["reqs"]))
     # code -> spec: un-gated load, N = 2..16 clients with random offsets; trace validated by TLC
-    summ, rej, nev = srvlib.load_and_validate(ctx, kinds, 4 if ctx.quick else 30, 6 if ctx.quick else 16)
-    summ2, rej2, nev2 = srvlib.load_and_validate(ctx, kinds, 4 if ctx.quick else 30, 6 if ctx.quick else 16, mode="insertion", depth=2, batch=2)
+    summ, rej, nev = srvlib.load_and_validate(ctx, kinds, 7 if ctx.quick else 30, 6 if ctx.quick else 16)
+    summ2, rej2, nev2 = srvlib.load_and_validate(ctx, kinds, 7 if ctx.quick else 30, 6 if ctx.quick else 16, mode="insertion", depth=2, batch=2)
     summ, rej, nev = summ + summ2, rej or rej2, nev + nev2
     for s in summ:
         for b in s.get("bad_responses") or []:
